@@ -226,7 +226,7 @@ def run(ctx):
         "(concatenated, nothing filtered) and local records are given up only behind the is_subset test; (R2) the "
         "interleaving is a stable sort whose comparator is a.time().cmp(b.time()); (R3) no caller on the "
         "apply/merge path rewrites record timestamps and database rows keep record.time(); (R4) the commit sent to the "
-        "server, the commit rewound to locally and on the server, and the checkpoint merged with are the request's own. "
+        "server, the commit rewound to locally and on the server, and the checkpoint merged with are the request's own; (R8, = C06-R1) the SQL that prunes the divergent suffix before the merged events are re-applied is scoped to the owner and to one row per hash. "
         "The multiset/exactly-once statement over histories (incl. de-duplication of byte-identical events, observation "
         "O1 in DESIGN.md) is a runtime property and is NOT decided.")
     ctx.trust("slice::sort_by is stable (std documentation)")
@@ -255,3 +255,12 @@ def run(ctx):
     for inst in ctx.rules[-1].instances:
         inst["rule"] = "C05-R7"
         inst["key"] = inst["key"].replace("C08-R5|", "C05-R7|", 1)
+    # shared with C06-R1 / C07-R9: the merge prunes the divergent suffix with
+    # DELETE statements on the event tables; a statement that is not scoped to the
+    # owner and to one row (the newest with that hash) also deletes a committed,
+    # byte-identical earlier event (a rename back, the same delete) — lost on reload
+    c06.r1_sql_scoping(ctx)
+    ctx.rules[-1].id = "C05-R8"
+    for inst in ctx.rules[-1].instances:
+        inst["rule"] = "C05-R8"
+        inst["key"] = inst["key"].replace("C06-R1|", "C05-R8|", 1)
